@@ -1,6 +1,7 @@
 package avltree
 
 import (
+	"strings"
 	"encoding/json"
 	"github.com/emirpasic/gods/v2/containers"
 	vl "github.com/emirpasic/gods/v2/zzvlib"
@@ -418,4 +419,13 @@ func VHJSONRound() {
 func VHJSONLoad() {
 	c := VGSmall()
 	containers.VJSONLoad(vJSON(c))
+}
+
+// VHString: String() begins with the container's name and is read-only (C15, C18).
+func VHString() {
+	c := VGSmall()
+	v.BeginOp(true, c)
+	s := c.String()
+	v.EndOp()
+	v.Assert(strings.HasPrefix(s, "AVLTree"), "C15:string-begins-with-container-name")
 }
